@@ -337,8 +337,13 @@ static int generate_password(const char *keyfile)
         password[posn] = (unsigned char)pw_chars[password[posn] & 0x3F];
 
     /* Write the generated password to keyfile */
-    safe_file_write(&file, password, sizeof(password));
-    safe_file_write(&file, "\n", 1);
+    if (safe_file_write(&file, password, sizeof(password)) !=
+            (int)sizeof(password) ||
+            safe_file_write(&file, "\n", 1) != 1) {
+        safe_file_delete(&file);
+        ascon_clean(password, sizeof(password));
+        return 0;
+    }
     safe_file_close(&file);
 
     /* Clean up and exit */
